@@ -27,6 +27,14 @@ def _layouts(ctx):
     for on3, ok3, pn3, pk3 in ((('a',), [(0,), (1,)], ('c', 'b', 'a'), k3), (('a',), [(1,), (0,)], ('a', 'b', 'c'), [(k_[2], k_[1], k_[0]) for k_ in k3]),
                                (('a', 'b', 'c'), [(k_[2], k_[1], k_[0]) for k_ in k3], ('c', 'b', 'a'), k3), (('c', 'b', 'a'), k3, ('a',), [(0,), (1,)])):
         yield on3, ok3, pn3, pk3
+    # the same two levels in the other order with MATCHING keys (the key sets above are typed (int, str) per position, so (a, b) x (b, a) never had matching keys):
+    # keys listed so that the positional codes of the two indices coincide, listed in another order, and with keys one operand lacks.  Exposed a defect of the
+    # unchanged tree (pandas' align compares index values only: coinciding codes came back unaligned, other orders with the parameter's level order kept), repaired
+    # in /repo, see known_findings.json
+    sq = [(0, 'x'), (0, 'y'), (1, 'x'), (1, 'y')]
+    for pk2 in ([('x', 0), ('x', 1), ('y', 0), ('y', 1)], [('y', 1), ('x', 0), ('x', 1), ('y', 0)], [('y', 1), ('x', 0)], [('x', 0), ('y', 0), ('x', 1), ('y', 1)]):
+        yield ('a', 'b'), sq, ('b', 'a'), pk2
+        yield ('b', 'a'), pk2, ('a', 'b'), sq
     # chained levels: the object's last level is the parameter's first one (curves per (material, element) x loads per (element, scenario)); the parameter
     # pairs 1:1 with the object's rows in the same order, in another order, or multiplies them (added after seed C13-a)
     chain_obj = [[(0, 'x'), (1, 'y')], [(0, 'x'), (0, 'y'), (1, 'z')], [(1, 'y'), (0, 'x')]]
